@@ -45,11 +45,15 @@ def example_cases():
     return l, args
 
 
-def build_batch(workdir, plan, with_examples=True):
-    """plan: list of (profile name, count).  Returns (artdir, index by name, args by name)."""
+def build_batch(workdir, plan, with_examples=True, directed=None):
+    """plan: list of (profile name, count); directed: list of (name, linear program, argument tuples).
+    Returns (artdir, index by name, args by name)."""
     lst, args = ([], {})
     if with_examples:
         lst, args = example_cases()
+    for name, p, a in (directed or []):
+        lst.append({"name": name, "kind": "axcut", "prog": p, "linear": True})
+        args[name] = a
     s = seed()
     for k, (prof, n) in enumerate(plan):
         for name, p, a in gen_axcut.generate(s * 100 + k, n, **PROFILES[prof]):
@@ -151,11 +155,11 @@ def coverage_of(results):
 
 
 def lockstep_check(pid, tier, backends, plan, maxsteps=6000, nblocks=96, timeout=1500, level="translation_validation",
-                   assumptions=None, extra_rule=""):
+                   assumptions=None, extra_rule="", directed=None, with_examples=True, post=None, extra_cov=None):
     t0 = time.time()
     build_harness()
     work = fresh_dir(WORK, pid)
-    art, index, args = build_batch(work, plan)
+    art, index, args = build_batch(work, plan, with_examples=with_examples, directed=directed)
     allv, allstats, states, trans, nprog, ncases = [], {}, 0, 0, 0, 0
     samples, cov = [], {}
     for be in backends:
@@ -175,13 +179,17 @@ def lockstep_check(pid, tier, backends, plan, maxsteps=6000, nblocks=96, timeout
             samples.append({"backend": be, "case": x["case"], "isa_steps": x["steps"], "statement_markers": x["marks"],
                             "prints": x["nout"], "frontier": x["F"], "peak_reachable": x["peak"]})
         log("[%s] %s: %s  (%d states, %.0fs)" % (pid, be, dict(stats), r["distinct"], r["wall"]))
+        json.dump(r["results"], open(os.path.join(work, "results-%s.json" % be), "w"))
+    if post:
+        allv += post(art, index, args, work, allstats)
     new = triage(pid, allv)
     coverage = {"programs": nprog, "disagreements_checked": ncases, "samples": samples, "states": states,
                 "transitions": trans, "traces_validated_against_impl": ncases, "per_backend": allstats,
-                "feature_coverage": cov,
+                "feature_coverage": cov, "directed_programs": len(directed or []),
                 "rule": "generated non-linear AxCut programs (profiles %s, seed %d) linearised and compiled by the real "
                         "pipeline plus the repository's examples; every (program, argument tuple) is one lock-step run; %s"
                         % (plan, seed(), extra_rule)}
+    coverage.update(extra_cov or {})
     write_evidence(pid, tier, level, coverage, time.time() - t0, len(allv),
                    assumptions=assumptions or ["ISA semantics as written in spec/X86.tla, A64.tla, RV64.tla",
                                                "tokenizers lib/tok_*.py read the printed text faithfully"])
